@@ -17,6 +17,7 @@ keeps id / ty / sp and records the rule in `nf`):
   NF8  a named constant array of integers                -> the array literal
   NF9  unsigned x / 2^k, x % 2^k, x * 2^k                -> x >> k, x & (2^k - 1), x << k
   NF11 a.eq(&b), a.ne(&b)                                -> a == b, a != b
+  NF20 if a % k == 0 { a / k } else { a / k + 1 }        -> a.div_ceil(k)       (unsigned a, literal k > 0)
   NF10 let f = match s { A => e1, .. }; if f { X }  (f used once) -> match s { A => if e1 { X }, .. }
 """
 from . import hir as H
@@ -56,6 +57,71 @@ def _unsigned(n):
 
 def _same(a, b):
     return H.show(a) == H.show(b)
+
+
+def _strip_widening(n):
+    """the operand under value-preserving casts between unsigned integer types (u8 -> usize ...)"""
+    n = _peel_block(n)
+    while isinstance(n, dict) and n.get("k") == "Cast" and n.get("ty") in UNSIGNED and (n["e"].get("ty") or "") in UNSIGNED \
+            and INT_BITS[n["e"]["ty"]] <= INT_BITS[n["ty"]]:
+        n = _peel_block(n["e"])
+    return n
+
+
+def _quotient(n):
+    """(a, k) for `a / k` and, k a power of two, `a >> log2 k` (the form NF9 leaves); unsigned only"""
+    n = _peel_block(n)
+    if not (isinstance(n, dict) and n.get("k") == "Binary" and n.get("ty") in UNSIGNED):
+        return None
+    v = _int(n["r"])
+    if v is None:
+        return None
+    if n["op"] == "/" and v > 0:
+        return n["l"], v
+    if n["op"] == ">>" and 0 < v < 64:
+        return n["l"], 1 << v
+    return None
+
+
+def _ceil_div(n):
+    """NF20  if a % k == 0 { a / k } else { a / k + 1 }   ->   a.div_ceil(k)
+    (k a positive literal, a unsigned; the test may be spelled `a.is_multiple_of(k)` or, for a power of two, `a & (k-1) == 0`, and
+    may look at `a` before a widening cast that the quotient applies)"""
+    c = _peel_block(n.get("cond"))
+    if not isinstance(c, dict):
+        return None
+    tested = None
+    if c.get("k") == "MethodCall" and c.get("name") == "is_multiple_of" and (c.get("callee") or "").startswith("core::num::") \
+            and len(c.get("args") or ()) == 1 and _int(c["args"][0]) is not None:
+        tested = (c["recv"], _int(c["args"][0]))
+    elif c.get("k") == "Binary" and c["op"] == "==" and _int(c["r"]) == 0:
+        l = _peel_block(c["l"])
+        if isinstance(l, dict) and l.get("k") == "Binary" and _int(l["r"]) is not None and l.get("ty") in UNSIGNED:
+            v = _int(l["r"])
+            if l["op"] == "%" and v > 0:
+                tested = (l["l"], v)
+            elif l["op"] == "&" and v > 0 and (v & (v + 1)) == 0:
+                tested = (l["l"], v + 1)
+    if tested is None:
+        return None
+    q = _quotient(n["then"])
+    e = _peel_block(n["else"])
+    if q is None or not (isinstance(e, dict) and e.get("k") == "Binary" and e["op"] == "+"):
+        return None
+    if _int(e["r"]) == 1:
+        q2 = _quotient(e["l"])
+    elif _int(e["l"]) == 1:
+        q2 = _quotient(e["r"])
+    else:
+        return None
+    if q2 is None or q2[1] != q[1] or tested[1] != q[1] or not _same(q[0], q2[0]) or not _same(_strip_widening(q[0]), _strip_widening(tested[0])):
+        return None
+    ty = n["ty"]
+    if (_peel_block(q[0]).get("ty") or "") != ty:
+        return None
+    like = {"id": n.get("id"), "ty": ty, "sp": n.get("sp")}
+    return {"k": "MethodCall", "name": "div_ceil", "callee": "core::num::<impl %s>::div_ceil" % ty, "recv": q[0], "recv_ty": ty,
+            "args": [_lit(q[1], like, "NF20")], "id": n.get("id"), "ty": ty, "sp": n.get("sp"), "nf": "NF20"}
 
 
 class Normalizer:
@@ -119,6 +185,10 @@ class Normalizer:
                     r["id"], r["sp"], r["nf"] = n.get("id"), n.get("sp"), "NF12"
                     return r
             return n
+        if k == "If" and n.get("else") is not None and n.get("ty") in UNSIGNED:
+            r = _ceil_div(n)
+            if r is not None:
+                return r
         if k == "If" and n.get("else") is not None and n.get("ty") in INT_BITS:
             # NF16: if b { 1 } else { 0 }  ->  b as T      (and  if b { 0 } else { 1 }  ->  !b as T)
             t_, e_ = _int(_peel_block(n["then"])), _int(_peel_block(n["else"]))
